@@ -228,6 +228,23 @@ def rules(ck, P):
                  "the block index named by the header is read and decoded unconditionally, with `?`, before the reader is returned",
                  "the block index is not decoded unconditionally before Ok", ir.loc(b))
 
+    # a torn header write leaves a prefix of the new header over zeros: the fields at its end (zoom range, bounds, centre) can still be
+    # zero while magic, ranges and compression are already final.  Tile lookups must therefore not trust those trailing fields to
+    # decide whether a tile exists.
+    ADVISORY = ("min_zoom", "max_zoom", "min_lon_e7", "min_lat_e7", "max_lon_e7", "max_lat_e7", "center_zoom", "center_lon_e7", "center_lat_e7",
+                "addressed_tiles_count", "tile_entries_count", "tile_contents_count", "clustered", "zoom_range", "bbox")
+    for suffix, hdr_t in (("::PMTilesReader", "HeaderV3"), ("::VersaTilesReader", "FileHeader")):
+        for i in P.impls_of("::TilesReaderTrait"):
+            if not i.get("self_adt", "").endswith(suffix):
+                continue
+            for mname in ("get_tile_data", "get_bbox_tile_stream"):
+                m_ = P.impl_method(i, mname)
+                if m_ is None:
+                    continue
+                used = sorted({y["name"] for y in ir.walk_nodes(m_["body"]) if y.get("k") == "field" and y.get("name") in ADVISORY and
+                               hdr_t in ((ir.strip(y["e"]).get("t") or "") + (ir.strip(y["e"]).get("ta") or ""))})
+                ck.check(not used, "R-COMMIT-ORDER", "%s|%s|f-advisory-fields" % (suffix.strip(":"), mname), "tile lookups do not consult the header's trailing advisory fields (zoom range, bounds, counts)",
+                         "the lookup consults header field(s) %s, which a torn header write can leave at zero while the file already opens: stored tiles are reported absent" % used, ir.loc(m_))
     # an unfinished versatiles file carries an EMPTY block-index range: the reader must not accept an empty buffer as an index
     fbb = [x for x in P.bodies if x["q"].endswith("block_index::BlockIndex::from_brotli_blob")]
     if ck.anchor("R-COMMIT-ORDER", "BlockIndex::from_brotli_blob", fbb, 1):
